@@ -244,6 +244,19 @@ def pre_valid(ctx, rule="PRE-VALID"):
             ctx.check(has_fact(Sy, b, r"BTreeMap::<K, V, A>::contains_key\(&\*p1\.tables,.*_Validation", True), rule, "create_table: _Validation insert is optional", "",
                       "the _Validation insert is not guarded by tables.contains_key(_Validation): a package without that table fails after the other inserts", f.loc(t["sp"]), fn=f.name)
     ctx.floor(rule, "catalog inserts in create_table_with_name", n, 3)
+    # check_rows itself judges every cell: nothing but the two loops stands in front of Column::is_valid_value
+    cr = prog.fn("msi::internal::package::check_rows")
+    sites = 0
+    for g_ in prog.unit(cr):
+        Sg_ = Sym(prog, g_)
+        for (b_, nme_, args_, t_) in symcalls(prog, g_, Sg_):
+            if not nme_.endswith("Column::is_valid_value"):
+                continue
+            sites += 1
+            cond = [(e[:70], tr) for (e, tr, gd) in Sg_.bool_facts_at(b_) if not re.search(r"Iterator>?::next\)|Try>::branch\)|::next\)@Some", e)]
+            ctx.check(not cond, rule, "check_rows judges every cell", "", "check_rows consults Column::is_valid_value only under %s: the other cells of a catalog row are first refused by the "
+                      "real insert, after earlier catalog rows were written (the table is half created)" % cond, cr.loc(t_["sp"]), fn=cr.name, key="%s|check_rows|every-cell" % rule)
+    ctx.floor(rule, "is_valid_value sites in check_rows", sites, 1)
     g = prog.fn("msi::internal::package::Package::<F>::drop_table")
     Sg = Sym(prog, g)
     dg = DefUse(g)
